@@ -339,6 +339,9 @@ pub const EXIT_HANG: i32 = 86;
 pub fn run_sweep(sweep: &dyn Sweep, progress_file: &str) -> Acc {
     let n = sweep.shards();
     let nthreads = threads().min(n.max(1));
+    if let Some(dir) = std::path::Path::new(progress_file).parent() {
+        let _ = std::fs::create_dir_all(dir);
+    }
     // VERIF_SEED only permutes the order in which shards are handed out.
     let mut order: Vec<usize> = (0..n).collect();
     let sd = seed();
